@@ -21,6 +21,16 @@ def clientOp (args : List String) : String :=
       let ds := if s.dataSlots.isEmpty then "-" else "/".intercalate (s.dataSlots.map fun l => if l.isEmpty then "e" else showNatList l)
       s!"{f} | issued={s.next} pending={showNatList s.queue} pipelining={s.pipelining} data={ds} failed={s.failed.getD "-"} rest={toHexOrDash (s.buf ++ s.segs.flatten)}"
     | _, _, _ => "bad-op"
+  | ["tls", lmtp, before, buf, segs, tls, after] =>
+    -- methods, then STARTTLS (the TLS stream replaces the socket on 220), then more methods
+    let pm := fun (m : String) => if m == "-" then some [] else (m.splitOn ",").mapM parseMethod
+    match pm before, pm after, ofHex buf, parseBytesList segs, parseBytesList tls with
+    | some ms, some ms2, some b, some sg, some tl =>
+      let s0 := Client.run { lmtp := lmtp == "1", buf := b, segs := sg } ms
+      let s := Client.run (Client.starttls s0 tl) ms2
+      let f := if s.filled.isEmpty then "-" else ";".intercalate (s.filled.map fun (slot, c, t) => s!"{slot}:{toHexOrDash c}:{toHexOrDash t}")
+      s!"{f} | issued={s.next} pending={showNatList s.queue} pipelining={s.pipelining} failed={s.failed.getD "-"} rest={toHexOrDash (s.buf ++ s.segs.flatten)}"
+    | _, _, _, _, _ => "bad-op"
   | _ => "bad-op"
 
 end Slimta.Driver
